@@ -45,12 +45,29 @@ def rule_generator(rep: Report, rid="C11.gen") -> None:
     rep.eq(rid, "a fresh generator starts at 0", const(0), st2.ext.get((("param", fi2.params()[0]), N.ID_COUNTER)), file=fi2.file, line=fi2.node.lineno, function=fi2.qualname)
     # writers of the counter, of id_generator attributes
     sites = 0
+    gen_cls = I.facts.cls(GQ)
+    # helpers of the generator that advance the counter on behalf of get_next_id: private methods called from nowhere else
+    def callers_of(name):
+        out = set()
+        for g in _pkg_functions():
+            for n in ast.walk(g.node):
+                if isinstance(n, ast.Call) and ((isinstance(n.func, ast.Attribute) and n.func.attr == name) or (isinstance(n.func, ast.Name) and n.func.id == name)):
+                    out.add(g.qualname)
+        return out
+    allowed = {q, f"{GQ}.__init__"}
+    changed = True
+    while changed:
+        changed = False
+        for m in gen_cls.methods.values():
+            if m.qualname not in allowed and m.name.startswith("_") and not m.name.startswith("__") and callers_of(m.name) and callers_of(m.name) <= allowed - {f"{GQ}.__init__"}:
+                allowed.add(m.qualname)
+                changed = True
     for f in _pkg_functions():
         for n in ast.walk(f.node):
             if isinstance(n, ast.Attribute) and n.attr == N.ID_COUNTER and isinstance(n.ctx, (ast.Store, ast.Del)):
                 sites += 1
                 rep.ob(rid, "the id counter is written only by the generator's constructor and get_next_id (never rewound or reset)",
-                       f.qualname in (q, f"{GQ}.__init__"), file=f.file, line=n.lineno, function=f.qualname, expected=[f"{GQ}.__init__", q], found=f.qualname)
+                       f.qualname in allowed, file=f.file, line=n.lineno, function=f.qualname, expected=sorted(allowed), found=f.qualname)
             if isinstance(n, ast.Attribute) and n.attr == "id_generator" and isinstance(n.ctx, (ast.Store, ast.Del)):
                 rep.ob(rid, "id_generator attributes are bound once, in constructors", f.name == "__init__", file=f.file, line=n.lineno, function=f.qualname,
                        expected="__init__", found=f.name)
